@@ -88,8 +88,10 @@ func hC17Selector() {
 // ---- template grammar ---------------------------------------------------------------------------
 
 // refTemplate is a recursive-descent recogniser of the google.api.http path template grammar:
-//   Template = "/" Segments [ ":" LITERAL ] ;  Segments = Segment { "/" Segment } ;
-//   Segment  = "*" | "**" | LITERAL | "{" FieldPath [ "=" Segments ] "}" ;  FieldPath = IDENT { "." IDENT }
+//
+//	Template = "/" Segments [ ":" LITERAL ] ;  Segments = Segment { "/" Segment } ;
+//	Segment  = "*" | "**" | LITERAL | "{" FieldPath [ "=" Segments ] "}" ;  FieldPath = IDENT { "." IDENT }
+//
 // plus the documented restrictions: "**" only as the last segment, no nested variables, no duplicate
 // variable. verdict: 1 accept, 0 reject, 2 grey (not asserted).
 type refTpl struct {
@@ -108,8 +110,10 @@ func (p *refTpl) peek() byte {
 	return 0
 }
 
-func refIsIdentStart(c byte) bool { return (c >= 'a' && c <= 'z') || (c >= 'A' && c <= 'Z') || c == '_' }
-func refIsIdent(c byte) bool      { return refIsIdentStart(c) || (c >= '0' && c <= '9') }
+func refIsIdentStart(c byte) bool {
+	return (c >= 'a' && c <= 'z') || (c >= 'A' && c <= 'Z') || c == '_'
+}
+func refIsIdent(c byte) bool { return refIsIdentStart(c) || (c >= '0' && c <= '9') }
 func refIsLiteralChar(c byte) bool {
 	return refIsIdent(c) || c == '-' || c == '.' || c == '~'
 }
